@@ -341,6 +341,7 @@ class _Builder:
         self.top_types: list[list[str]] = []    # result types of every top-level statement
         self.top_kinds: list[str] = []          # kind of every top-level statement (as built)
         self.ysafe = False      # loops only yield values defined in their body (or the iter_arg itself)
+        self.alias: set[str] = set()   # results of index_cast: erased by the lowering, i.e. aliases
 
     def new(self) -> str:
         self.n += 1
@@ -511,6 +512,8 @@ class _Builder:
             name = self.new()
             self.emit(ind, f"{name} = arith.{op} {a} : {f} to {to}")
             scope.append((name, to))
+            if op == "index_cast":
+                self.alias.add(name)
         self.kinds.append(kind)
         self._nres = 1
 
@@ -551,7 +554,7 @@ class _Builder:
         for i, ty in enumerate(tys):
             r = ys[i] if i < len(ys) else 0
             if self.ysafe:
-                ysc = [(bargs[i], ty)] + inner[nouter:]
+                ysc = [(bargs[i], ty)] + [e for e in inner[nouter:] if e[0] not in self.alias]
                 yv.append(self.ref(ysc, ty, r, ind + 1))
             else:
                 yv.append(self.ref(inner, ty, r, ind + 1))
@@ -977,7 +980,28 @@ def apply_prealloc(module, prealloc) -> int:
     return n
 
 
-def l2_compile(prog, pipe: int, prealloc):
+def loop_shape(module) -> str:
+    """Shape of the loop-carried values the register allocator is handed: a riscv_scf.for that yields its
+    own induction variable / a value that is not defined in its body (and is not the iter_arg itself)."""
+    shape = "-"
+    for op in module.walk():
+        if op.name != "riscv_scf.for":
+            continue
+        block = op.regions[0].blocks[0]
+        y = block.last_op
+        if y is None or y.name != "riscv_scf.yield":
+            continue
+        for barg, v in zip(block.args[1:], y.operands):
+            if v is block.args[0]:
+                return "for_yields_iv"
+            owner = v.owner
+            if v is not barg and not (hasattr(owner, "parent") and getattr(owner, "name", "") and
+                                      owner.parent is block):
+                shape = "for_yields_outer"
+    return shape
+
+
+def l2_compile(prog, pipe: int, prealloc, stop_after_regalloc: bool = False):
     """-> dict(status, bt, module(src), asm, ...). Raises RecipeError on malformed recipes."""
     bt = build_prog(prog)
     module = parse(bt.text)
@@ -989,6 +1013,11 @@ def l2_compile(prog, pipe: int, prealloc):
         k = passes.index("riscv-allocate-registers")
         apply_passes(low, passes[:k])
         out["npre"] = apply_prealloc(low, prealloc)
+        out["shape"] = loop_shape(low)
+        if stop_after_regalloc:
+            apply_passes(low, passes[k:k + 1])
+            out["allocated"] = low
+            return out
         apply_passes(low, passes[k:])
         try:
             from xdsl.dialects.riscv import riscv_code
@@ -1003,21 +1032,40 @@ def l2_compile(prog, pipe: int, prealloc):
     return out
 
 
-def l2_stage(prog, pipe, vec) -> tuple[str, str]:
-    """On a wrong result: where does the value go wrong first? -> (stage, blamed kind or '-')"""
+def l2_stage(prog, pipe, prealloc, vec) -> tuple[str, str]:
+    """On a wrong run: which stage is the first to go wrong?  lowering (SSA program after the L1 passes),
+    canonicalize (SSA program after the first canonicalize), regalloc (the allocated riscv_scf program
+    executed on a register file -- SSAMachine(regmode) -- is wrong although its SSA execution is right),
+    otherwise backend (parallel-mov / scf-to-cf lowering, second canonicalize, prologue/epilogue, printer).
+    -> (stage, blamed kind or '-/-/-')"""
     r = l1_compare(prog, [vec])
     if r["status"] == "ok" and r["mism"]:
         kind, _, _ = localise_l1(prog, vec)
         return "lowering", kind or "unlocalised/-/-"
-    if r["status"] != "ok":
+    if r["status"] != "ok" or r["refs"][0] is None:
         return "unknown", "-/-/-"
-    low = r["low"]
+    bt, want = r["bt"], r["refs"][0]
+
+    def wrong(module, regmode):
+        try:
+            m = rvsim.SSAMachine(module, fuel=400000, regmode=regmode)
+            got = m.call("f", reg_args(bt, vec))
+        except (rvsim.MachineFault, rvsim.InvalidAssembly):
+            return True
+        return any(not value_ok(t, g, w) for t, g, w in zip(bt.rets, got, want))
     try:
+        low = r["low"]
         apply_passes(low, ["canonicalize"])
-        got = l1_results(low, r["bt"], vec)
-        if any(not value_ok(t, g, w) for t, g, w in zip(r["bt"].rets, got, r["refs"][0])):
+        if wrong(low, False):
             return "canonicalize", "-/-/-"
-    except (Rejected, rvsim.SimError):
+        c = l2_compile(prog, pipe, prealloc, stop_after_regalloc=True)
+        if c["status"] != "ok":
+            return "unknown", "-/-/-"
+        # the allocated program is only executed on the register file (the allocator may leave dangling
+        # SSA values behind, e.g. for an identity yield, which makes a value-level run meaningless)
+        if wrong(c["allocated"], True):
+            return "regalloc", "-/-/-"
+    except (Rejected, rvsim.UnknownInstruction):
         return "unknown", "-/-/-"
     return "backend", "-/-/-"
 
@@ -1055,29 +1103,26 @@ def check_l2(h, recipe, label="L2") -> str:
             sig = {"check": check, "op": "-", "pred": "-", **extra}
             h.mismatch(sig, recipe, f"input {vec} (args {bt.args}), machine seed {seed * 31 + i}: {text}\n"
                                     f"source:\n{bt.text}\nassembly:\n{asm}")
+
+        def staged(what, text):
+            stage, kind = l2_stage(prog, pipe, _g(recipe, "prealloc", []), vec)
+            ks = kind_sig(kind) if stage == "lowering" else {"op": "-", "pred": "-"}
+            report("L2_asm", {"what": what, "stage": stage, "op": ks["op"], "pred": ks["pred"],
+                              "shape": c.get("shape", "-") if stage in ("regalloc", "backend") else "-"},
+                   text + f" (first wrong stage: {stage})")
         try:
             mach.run("f", x, f, mem, fuel=5000 + 60 * rr.steps)
         except rvsim.InvalidAssembly as e:
             report("L2_asm", {"what": "invalid_assembly"}, str(e))
             continue
         except rvsim.MachineFault as e:
-            report("L2_asm", {"what": "fault"}, str(e))
+            staged("fault", str(e))
             continue
         regs = result_regs(bt)
         for j, (t, rn, w) in enumerate(zip(bt.rets, regs, vals)):
             g = mach.f[rvsim.FREG[rn]] if t in FLT_T else mach.x[rvsim.XREG[rn]]
             if not value_ok(t, g, w):
-                stage, kind = l2_stage(prog, pipe, vec)
-                ks = kind_sig(kind) if stage == "lowering" else {"op": "-", "pred": "-"}
-                bad = True
-                shape = ("for_yields_iv" if any(k.startswith("for/yields_iv/") for k in bt.kinds) else
-                         "for_yields_outer" if any(k.startswith("for/yields_outer/") for k in bt.kinds) else "-")
-                sig = {"check": "L2_asm", "what": "result", "stage": stage, "op": ks["op"], "pred": ks["pred"],
-                       "shape": shape}
-                h.mismatch(sig, recipe,
-                           f"input {vec} (args {bt.args}), machine seed {seed * 31 + i}: {rn} after ret = "
-                           f"{show(t, g)}, source result {j} = {w!r} (first wrong stage: {stage})\n"
-                           f"source:\n{bt.text}\nassembly:\n{asm}")
+                staged("result", f"{rn} after ret = {show(t, g)}, source result {j} = {w!r}")
                 break
         if mach.x[rvsim.XREG["sp"]] != sp:
             report("sp", {}, f"sp after ret = {mach.x[rvsim.XREG['sp']]:#x}, before the call {sp:#x}")
